@@ -28,11 +28,18 @@ QYEARS_T = [1996, 1997, 1999, 2000, 2001, 2003, 2004, 2007]
 
 
 def match_negative_dst(payload):
-    """tzical zone whose DAYLIGHT offset is smaller than its STANDARD offset (negative saving)."""
+    """tzical zone whose DAYLIGHT offset is smaller than its STANDARD offset (negative saving), at a UTC
+    instant within 2 x |saving| of a transition of the zone (what the finding describes); a difference
+    elsewhere in such a zone is NOT explained by it."""
     inp = payload.get("input") or {}
+    r = inp.get("rule") or {}
+    ds = r.get("dst") or {}
+    dist = inp.get("event_distance_s")
     return (bool(inp.get("negative_dst")) and
             payload.get("kind", "") in ("tzical zone differs from the POSIX specification at a UTC instant",
-                                        "before the first onset the first STANDARD component does not apply"))
+                                        "tzical zone and tzstr of the same rule differ at a UTC instant",
+                                        "before the first onset the first STANDARD component does not apply") and
+            isinstance(dist, int) and "off" in ds and dist <= 2 * abs(r["off"] - ds["off"]))
 
 
 MATCHERS = {"c17_negative_dst_saving": match_negative_dst}
@@ -267,7 +274,9 @@ def check_zone(verdict, st, o, r, rng, qyears, idx, tier):
     # tzstr of the same rule (property: indistinguishable), only inside tzstr's own guard
     canon = "".join(chr(c) for c in o.call(P.E_RENDER, enc))
     zs = None
-    if guards["d8"] and in_guard and r["name"] not in ("GMT", "UTC"):
+    if guards["d8"] and (in_guard or (neg and guards["wf"])) and r["name"] not in ("GMT", "UTC"):
+        # (negative saving: the C17 text asks for agreement with tzstr; tzstr is itself wrong there
+        #  (F-C08-3), a difference near a transition is routed to F-C17-1 like the spec difference)
         try:
             zs = tz.tzstr(canon)
         except Exception:
@@ -276,50 +285,68 @@ def check_zone(verdict, st, o, r, rng, qyears, idx, tier):
             "negative_dst": neg}
     if neg:
         st.bump("negative_saving_zones")
+    ev_cache = {}
+
+    def event_distance(t):
+        y = P.dt_of(t).year
+        best = None
+        for yy in (y - 1, y, y + 1):
+            if yy not in ev_cache:
+                ev_cache[yy] = o.call(P.E_EVENTS, enc + [yy])
+            for e in ev_cache[yy]:
+                if best is None or abs(t - e) < best:
+                    best = abs(t - e)
+        return best
+
     for k, u in enumerate(us):
         iu, sp = impl_u[k], spec_u[k]
         after = u >= first
         spec_bad = ((in_guard or (neg and guards["wf"])) and after and
                     (iu[0] != 0 or [iu[3], iu[4], iu[5]] != sp or iu[1] != u + sp[0]))
+        # the model is consulted at EVERY instant, also where a spec difference is reported / routed
+        if iu != m_u[k]:
+            st.model_diff += 1
+            verdict.violation({"kind": "correspondence: tzical zone differs from the model (UTC instant)",
+                               "input": dict(base, utc=u, utc_iso=P.dt_of(u).isoformat()), "impl": iu,
+                               "model": m_u[k], "spec": sp}, concrete=bool(spec_bad))
+            continue
         if not after:
             st.bump("utc_before_first_onset")
             # before the first onset the first STANDARD component applies
             want = [0, u + r["off"], 0, r["off"], 0, r["name"]]
             if iu != want:
                 verdict.violation({"kind": "before the first onset the first STANDARD component does not apply",
-                                   "input": dict(base, utc=u, utc_iso=P.dt_of(u).isoformat()), "impl": iu,
-                                   "want": want})
+                                   "input": dict(base, utc=u, utc_iso=P.dt_of(u).isoformat(),
+                                                 event_distance_s=event_distance(u) if neg else None),
+                                   "impl": iu, "want": want})
                 continue
         if spec_bad:
             st.spec_diff += 1
             verdict.violation({"kind": "tzical zone differs from the POSIX specification at a UTC instant",
-                               "input": dict(base, utc=u, utc_iso=P.dt_of(u).isoformat()), "impl": iu, "spec": sp,
-                               "model": m_u[k]})
-        elif iu != m_u[k]:
-            st.model_diff += 1
-            verdict.violation({"kind": "correspondence: tzical zone differs from the model (UTC instant)",
-                               "input": dict(base, utc=u, utc_iso=P.dt_of(u).isoformat()), "impl": iu,
-                               "model": m_u[k], "spec": sp}, concrete=False)
+                               "input": dict(base, utc=u, utc_iso=P.dt_of(u).isoformat(),
+                                             event_distance_s=event_distance(u) if neg else None),
+                               "impl": iu, "spec": sp, "model": m_u[k]})
         elif zs is not None and after and u >= first + P.DAY:
             tu = P.impl_obs_utc(zs, u)
             st.evals += 1
             if tu != iu:
                 st.spec_diff += 1
                 verdict.violation({"kind": "tzical zone and tzstr of the same rule differ at a UTC instant",
-                                   "input": dict(base, utc=u, utc_iso=P.dt_of(u).isoformat()), "impl": iu,
-                                   "tzstr_impl": tu, "spec": sp})
+                                   "input": dict(base, utc=u, utc_iso=P.dt_of(u).isoformat(),
+                                                 event_distance_s=event_distance(u) if neg else None),
+                                   "impl": iu, "tzstr_impl": tu, "spec": sp})
     first_wall = min(dl[0], sd[0])
     last_first_wall = max(dl[0], sd[0])
     for k, (w, f) in enumerate(ws):
         iw = impl_w[k]
         if iw != m_w[k]:
             st.model_diff += 1
-            tw = P.impl_obs_wall(zs, w, f) if zs is not None and w >= first_wall else None
+            tw = P.impl_obs_wall(zs, w, f) if zs is not None and in_guard and w >= first_wall else None
             verdict.violation({"kind": "correspondence: tzical zone differs from the model (wall reading)",
                                "input": dict(base, wall=w, fold=f, wall_iso=P.dt_of(w).isoformat()), "impl": iw,
                                "model": m_w[k], "tzstr_impl": tw},
                               concrete=bool(tw is not None and tw != iw))
-        elif zs is not None and w >= first_wall:
+        elif zs is not None and in_guard and w >= first_wall:
             # gaps and folds handled like tzstr does, from the zone's first onset on (wall readings)
             tw = P.impl_obs_wall(zs, w, f)
             st.evals += 1
@@ -743,6 +770,7 @@ def main():
     t0 = time.time()
     verdict = C.Verdict(CID, MATCHERS)
     st = Stats()
+    budget = {}
     build_err = None
     build_log = ""
     try:
@@ -777,10 +805,14 @@ def main():
                         check_zone(verdict, st, o, check_C08.from_json_rule(e["rule"]), rng, qyears,
                                    e.get("idx", k), tier)
         t_stream = time.time()
+        budget.update({"zone_stream_planned": len(rules), "zone_stream_done": 0, "zone_stream_budget_s": 45,
+                       "zone_stream_cut_by_time_budget": False})
         for k, r in enumerate(rules):
             check_zone(verdict, st, o, r, rng, qyears, k, tier)
+            budget["zone_stream_done"] = k + 1
             if tier == "quick" and time.time() - t_stream > 45:
                 st.bump("zone_stream_cut_by_budget_at", k)
+                budget["zone_stream_cut_by_time_budget"] = True
                 break
         # ---- one zone object shared by several threads
         pos = [r for r in rules if r["dst"]["off"] > r["off"]]
@@ -800,7 +832,7 @@ def main():
                 cls, ml = mutate_lines(lines, rng)
                 check_parse(verdict, st, o, ml, cls,
                             expect_valueerror=cls in ("missing_tzid", "missing_dtstart", "unknown_component",
-                                                      "unknown_property"))
+                                                      "unknown_property", "missing_offset"))
             # several zones in one stream; addressing by TZID; single zone returned without naming it
             if k % 5 == 0:
                 r2 = rules[(k + 7) % len(rules)]
@@ -895,6 +927,16 @@ def main():
                 verdict.violation({"kind": "correspondence: _parse_offset differs from the model",
                                    "input": {"s": s}, "impl": iv, "model": mv}, concrete=False)
         o.close()
+        # ---- coverage floors: a stream that ran (nearly) empty is a failure of the check, not a pass
+        floors = {"zones": 30 if tier == "quick" else 1000, "in_guard": 20, "form_rrule": 8, "form_rdate": 8,
+                  "folded": 5, "cache_sequences": 5, "thread_forced_interleaving_zones": 3,
+                  "std_offset_change_zones": 2, "parse_wellformed_ok": 50, "parse_missing_tzid_1": 5,
+                  "parse_missing_dtstart_1": 5, "parse_missing_offset_1": 5, "fold_after_blank": 3,
+                  "negative_saving_zones": 2}
+        short = {k: (st.hist.get(k, 0), v) for k, v in floors.items() if st.hist.get(k, 0) < v}
+        if short:
+            verdict.violation({"kind": "coverage floor not reached (stream ran empty or was cut too early)",
+                               "input": None, "short": short}, concrete=False)
     if not props["ok"] and not verdict.violations:
         verdict.violation({"kind": "broken proof obligation", "theorem_file": "coq/props/C17.v",
                            "theorems": props["theorems"], "discharged": props["discharged"], "input": None,
@@ -920,6 +962,7 @@ def main():
         "model_vs_impl_disagreements": st.model_diff,
         "spec_vs_impl_disagreements": st.spec_diff,
         "exhaustive": False,
+        "time_budget": budget,
         "traces_validated_against_impl": getattr(st, "traces", 0),
         "partial_theorems": [t for t in props["theorems"] if t.endswith("_partial")],
         "differential_only": ["RRULE text -> onset list: proved for Mm.w.d rules with 0 <= time < 24 h by the link area "
